@@ -1716,11 +1716,14 @@ def _custom_nanquantile(
     ):
         # bail to nanquantile. Assumptions are pretty strict for now but we
         # do cover the xarray.quantile case.
-        if weights is not None and weights.ndim != a.ndim:
-            # np.nanquantile requires weights to have the same shape as a,
-            # unlike np.quantile which broadcasts 1-D weights automatically.
-            expand_at = [i for i in range(a.ndim) if i not in axis]
-            weights = np.broadcast_to(np.expand_dims(weights, axis=expand_at), a.shape)
+        if weights is not None:
+            if weights.ndim != a.ndim:
+                # np.nanquantile requires weights to have the same shape as a,
+                # unlike np.quantile which broadcasts 1-D weights automatically.
+                expand_at = [i for i in range(a.ndim) if i not in axis]
+                weights = np.broadcast_to(
+                    np.expand_dims(weights, axis=expand_at), a.shape
+                )
             # NumPy <2.0 doesn't support the weights parameter
             kwargs["weights"] = weights
 
